@@ -111,9 +111,11 @@ def make_cell(rng, need, kind):
             cell = cell * 1.2
         if kind == "rot-ortho":
             Lg = np.array([round(x * 1.1 * G / 65) * 65 for x in L], float) / G
-            R = np.eye(3)
-            for nm in rng.sample(sorted(_R), rng.randint(1, 2)):
-                R = np.array(_R[nm]) @ R
+            # always one of the three Pythagorean rotations (the rotated box keeps a positive diagonal); sometimes composed with an axis
+            # permutation or a sign flip as well
+            R = np.array(_R[rng.choice(["z345", "x51213", "y345"])])
+            if rng.random() < 0.35:
+                R = np.array(_R[rng.choice(["perm", "flip", "z345", "y345"])]) @ R
             cell = np.diag(Lg) @ R.T
         if kind == "upper":
             # tilt in the upper triangle: a = (Lx, t, t'), b = (0, Ly, t''), c = (0, 0, Lz)
